@@ -132,6 +132,10 @@ static long spec_skip_value(const uint8_t *p, size_t n, int t, int in_container,
 /* a usable decoder: the struct is accessible, the invariant holds, the input bytes are readable */
 #define TD_PRE(d) (__CPROVER_rw_ok((d), sizeof(*(d))) && TD_INV(d) && \
                    __CPROVER_r_ok((d)->reader.data, (d)->reader.size))
+/* explicit index obligation for last_field_id[]: CBMC checks arrays that live inside an object reached
+ * through a pointer only against the WHOLE object (measured: last_field_id[-1] passes --bounds-check),
+ * so every indexing site carries this assertion (inserted by the overlay just before the access) */
+#define CQV_LFI_INDEX(i) __CPROVER_assert((i) >= 0 && (i) < THRIFT_MAX_NESTING, "last_field_id[] index within 0..THRIFT_MAX_NESTING-1")
 /* what a primitive may modify: cursor and error state */
 #define TD_ASSIGNS_CUR(d) (d)->reader.pos, (d)->status, __CPROVER_object_upto((d)->error_message, sizeof((d)->error_message))
 /* ... plus the struct/bool bookkeeping */
